@@ -9,7 +9,7 @@
 (***************************************************************************)
 EXTENDS LLex
 
-CONSTANTS MaxSites
+CONSTANTS MaxSites, MaxDepth
 
 Cases == ndJsonDeserialize(IOEnv.CASE_FILE)
 
@@ -20,7 +20,8 @@ C == Cases[ci]
 
 Export(l) ==
   PrintT(<<"PLACE", ToJson([ci |-> ci, id |-> C.id, sites |-> l.sites,
-                            wraps |-> l.wraps, semi |-> l.semi])>>)
+                            wraps |-> l.wraps, nests |-> l.nests,
+                            semi |-> l.semi])>>)
 
 Init == ci \in 1..Len(Cases) /\ lay = EmptyLayout /\ sent = FALSE
 
@@ -45,6 +46,14 @@ WrapParens ==
        /\ lay' = WrapRange(lay, w)
   /\ UNCHANGED <<ci, sent>>
 
+(* several layers of redundant parentheses with layout between the layers *)
+NestParens ==
+  /\ Room
+  /\ \E w \in 1..Len(C.ranges), d \in 2..MaxDepth, k \in NoiseKinds :
+       /\ CanNest(C, lay, w)
+       /\ lay' = NestRange(lay, w, d, k)
+  /\ UNCHANGED <<ci, sent>>
+
 TrailingSemicolon ==
   /\ Room /\ lay.semi = 0
   /\ lay' = AddSemi(lay)
@@ -61,7 +70,8 @@ Emit ==
   /\ UNCHANGED <<ci, lay>>
 
 Next == \/ InsertSpace \/ InsertNewline \/ InsertHashComment
-        \/ InsertBlockComment \/ WrapParens \/ TrailingSemicolon \/ Emit
+        \/ InsertBlockComment \/ WrapParens \/ NestParens
+        \/ TrailingSemicolon \/ Emit
 
 Spec == Init /\ [][Next]_vars
 
